@@ -57,3 +57,30 @@ let main () =
     incr i
   done with End_of_file -> ());
   close_in ic
+
+
+(* asmselftest: evaluate the statements of AsmStatements.v on the model's own output (a test of the statements,
+   not a proof): prints one line per accepted case *)
+let selftest () =
+  let ic = open_in_bin Sys.argv.(2) in
+  let i = ref 0 in
+  (try while true do
+    let len = int_of_string (SS.trim (input_line ic)) in
+    let src = really_input_string ic len in
+    let bytes = SL.init (SS.length src) (fun k -> zi (Char.code (SS.get src k))) in
+    (match AsmModel.parse (AsmModel.lex bytes) with
+     | AsmModel.Ok ldirs ->
+         let dirs = SL.map (fun (_, d) -> d) ldirs in
+         (match AsmLayout.assemble_directives dirs [] with
+          | AsmModel.Ok o ->
+              let l = o.AsmLayout.ao_layout in
+              let hw = zi (iz l.AsmLayout.l_size / 4) in
+              P.printf "SELF %d image=%b symtab=%b listing=%b\n" !i
+                (AsmSpec.check_image dirs o.AsmLayout.ao_image hw)
+                (AsmSpec.check_symtab dirs o.AsmLayout.ao_image o.AsmLayout.ao_syms)
+                (AsmSpec.check_listing (AsmStatements.struct_listing l) o.AsmLayout.ao_image)
+          | _ -> P.printf "SELF %d rejected\n" !i)
+     | _ -> P.printf "SELF %d rejected\n" !i);
+    incr i
+  done with End_of_file -> ());
+  close_in ic
